@@ -82,9 +82,11 @@ func verifyOne(p *Program, sp *Specs, fs *FuncSpec, want, outDir string, workers
 		for _, o := range g.obs {
 			if o.Auto {
 				autos = append(autos, o)
-			} else if want == "C06" && !strings.HasPrefix(o.Kind, "panic") && !o.Cover {
-				// the panic-freedom view: the other obligations of these functions belong to (and are
-				// discharged under) the properties that own the contracts
+			} else if want == "C06" && !strings.HasPrefix(o.Kind, "panic") && !o.Cover && !(o.Kind == "requires" && len(o.Props) == 0) {
+				// the panic-freedom view: run-time checks and the untagged preconditions at call
+				// sites (a callee's panic freedom rests on them: an unchecked type assertion
+				// behind a `same kind` precondition is only as safe as its callers). The other
+				// obligations belong to (and are discharged under) the properties that own them.
 			} else {
 				rest = append(rest, o)
 			}
